@@ -252,10 +252,12 @@ def extend(spec, m, xs, new_vars, new_cons):
 
 # ------------------------------------------------------------------ CNF: all models projected on some variables
 
-def cnf_projected_models(clauses, proj, limit_nodes=400_000):
+def cnf_projected_models(clauses, proj, limit_nodes=400_000, witnesses=None):
     """All assignments to the variables in `proj` (list of positive ints) that extend to a model of the CNF.
     Independent DPLL: unit propagation over occurrence lists, branch on projection variables first, then plain
-    satisfiability of the rest.  Returns (set of frozenset(true projection vars), complete_flag)."""
+    satisfiability of the rest.  Returns (set of frozenset(true projection vars), complete_flag).
+    witnesses: optional dict, filled with projection -> [full model found preferring True, one preferring False]
+    (full models as dict var -> bool over every variable of the CNF and of proj)."""
     clauses = [tuple(dict.fromkeys(c)) for c in clauses]
     if any(len(c) == 0 for c in clauses):
         return set(), True
@@ -307,18 +309,21 @@ def cnf_projected_models(clauses, proj, limit_nodes=400_000):
     if not assign_and_propagate(base, units):
         return set(), True
 
-    def satisfiable(assign):
+    def satisfiable(assign, pref=(True, False)):
+        """A full model extending `assign` (dict), or None."""
         nodes[0] += 1
         if nodes[0] > limit_nodes:
             raise Limit
         for v in allvars:
             if v not in assign:
-                for val in (True, False):
+                for val in pref:
                     a2 = dict(assign)
-                    if assign_and_propagate(a2, [v if val else -v]) and satisfiable(a2):
-                        return True
-                return False
-        return True
+                    if assign_and_propagate(a2, [v if val else -v]):
+                        full = satisfiable(a2, pref)
+                        if full is not None:
+                            return full
+                return None
+        return assign
 
     out = set()
 
@@ -329,8 +334,13 @@ def cnf_projected_models(clauses, proj, limit_nodes=400_000):
         while k < len(proj) and proj[k] in assign:
             k += 1
         if k == len(proj):
-            if satisfiable(assign):
-                out.add(frozenset(v for v in proj if assign[v]))
+            full = satisfiable(assign)
+            if full is not None:
+                key = frozenset(v for v in proj if assign[v])
+                out.add(key)
+                if witnesses is not None:
+                    other = satisfiable(assign, (False, True))
+                    witnesses[key] = [full] if other is None or other == full else [full, other]
             return
         for val in (True, False):
             a2 = dict(assign)
